@@ -171,4 +171,257 @@ theorem TInvN.merge (hT : TInvN W seen cls s) {r : Req} {G : Forest} (hr : NestR
 
 end merge
 
+/-! ### a new import -/
+
+section fresh
+variable {W : Colls} {seen : List (Req × Forest)} {cls : Str → Str} {s s1 : AggState}
+
+theorem TInvN.fresh (hT : TInvN W seen cls s) {r : Req} {G : Forest} (hr : NestReq r G) (hW : W.mem r.2.1)
+    (hfresh : ∀ p, p ∈ seen → p.1.2.1.uid ≠ r.2.1.uid) (hnone : amGet s.agg.imports r.1 = none)
+    {fuel : Nat} {k' : ItemKind} (h : remapKind fuel r.2.1 r.2.2 s = .ok (k', s1)) {cls' : Str → Str}
+    (hc1 : cls' r.1 = r.1) (hc2 : ∀ p, p ∈ seen → cls' p.1.1 = cls p.1.1) :
+    TInvN W ((r, G) :: seen) cls' (addImport s1 r.1 k') ∧ s1.agg.imports = s.agg.imports ∧
+      s1.agg.redirects = s.agg.redirects ∧ s1.cfg = s.cfg := by
+  obtain ⟨i, d, hk, hsrc, hGs, hGt⟩ := hr.shape
+  rw [hk] at h
+  have hmiss : alGet s.agg.remapped (GTy.mk' r.2.1 (.interface i)) = none := by
+    cases hg : alGet s.agg.remapped (GTy.mk' r.2.1 (.interface i)) with
+    | none => rfl
+    | some v =>
+      obtain ⟨p, hp, hu⟩ := hT.keys (GTy.mk' r.2.1 (.interface i)) rfl (by rw [hg]; rfl)
+      exact absurd (hu.trans (gty_uid_of_hasId _ _ rfl)) (hfresh p hp)
+  have hik : ∀ i0 i', alGet s.agg.remapped (GTy.mk' r.2.1 (.interface i0)) = some (.interface i') →
+      ¬ ImpIds s i' ∧ i' < s.agg.types.interfaces.length ∧
+        ∀ t, HasTree r.2.1 (.instance i0) t → HasTree s.agg.types (.instance i') t := by
+    intro i0 i' hg
+    obtain ⟨p, hp, hu⟩ := hT.keys (GTy.mk' r.2.1 (.interface i0)) rfl (by rw [hg]; rfl)
+    exact absurd (hu.trans (gty_uid_of_hasId _ _ rfl)) (hfresh p hp)
+  have hNI : NI W r.2.1 (ImpIds s) s := ⟨hT.ainv, hT.iwf, fun j hj => impIds_lt hT hj, hik⟩
+  cases fuel with
+  | zero => simp [remapKind, run_apanic] at h
+  | succ fuel =>
+  simp only [remapKind, bind_ok, run_pure, Except.ok.injEq, Prod.mk.injEq] at h
+  obtain ⟨id', s1', h1, rfl, rfl⟩ := h
+  obtain ⟨hI1, hst, ⟨hfz, htree⟩, htop⟩ := (remapNest_spec hW hr.sane fuel).1 d i s id' s1' hNI hsrc h1
+  obtain ⟨hlen, hiwf'⟩ := htop hmiss
+  -- the new import
+  obtain ⟨N, hN⟩ := htree (.instance G) ⟨_, hGt⟩
+  obtain ⟨N', rfl⟩ : ∃ N', N = N' + 1 := by
+    cases N with
+    | zero => simp [Types.unfoldKind] at hN
+    | succ N' => exact ⟨N', rfl⟩
+  simp only [Types.unfoldKind] at hN
+  cases hnew : s1'.agg.types.interfaces[id']? with
+  | none => simp [hnew] at hN
+  | some tinew =>
+    simp only [hnew] at hN
+    obtain ⟨G', hG', hGG⟩ := Option.map_eq_some_iff.1 hN
+    cases hGG
+    have hgi : ∀ x, amGet (addImport s1' r.1 (.instance id')).agg.imports x =
+        if r.1 == x then some (.instance id') else amGet s.agg.imports x := by
+      intro x; simp only [addImport, hst.imports]; exact AggP.amGet_amInsert _ _ _ _
+    have hids : ∀ j, ImpIds (addImport s1' r.1 (.instance id')) j → ImpIds s j ∨ j = id' := by
+      rintro j ⟨n, hn⟩
+      rw [hgi] at hn
+      by_cases hne : r.1 = n
+      · simp only [hne, BEq.rfl, ↓reduceIte, Option.some.injEq, ItemKind.instance.injEq] at hn
+        exact .inr hn.symm
+      · have : (r.1 == n) = false := by simpa using hne
+        rw [this] at hn
+        exact .inl ⟨n, by simpa using hn⟩
+    have himp1 : ImpN (addImport s1' r.1 (.instance id')) r.1 G :=
+      ⟨id', tinew, by rw [hgi]; simp, hnew, ⟨N', hG'⟩, hr.nd⟩
+    have hfr : Frame (ImpIds s) s.agg.types s1'.agg.types := hst.frame _
+    have keep : ∀ n F', ImpN s n F' → n ≠ r.1 ∧ ImpN (addImport s1' r.1 (.instance id')) n F' := by
+      rintro n F' ⟨e', ti', g1, g2, ⟨m', g3⟩, g4⟩
+      have hne : n ≠ r.1 := by rintro rfl; rw [hnone] at g1; cases g1
+      have hne' : (r.1 == n) = false := by simpa using fun e => hne e.symm
+      refine ⟨hne, e', ti', by rw [hgi, hne']; exact g1, by
+        show s1'.agg.types.interfaces[e']? = some ti'
+        rw [hst.same e' (getElem?_lt g2)]; exact g2, ⟨m', ?_⟩, g4⟩
+      exact unfoldItems_frame hT.iwf hfr (hT.iwf e' ti' g2) g3
+    have back : ∀ n F', n ≠ r.1 → ImpN (addImport s1' r.1 (.instance id')) n F' → ImpN s n F' := by
+      intro n F' hne h1
+      have h1' := h1
+      obtain ⟨e', ti', g1, _, _, _⟩ := h1'
+      have hne' : (r.1 == n) = false := by simpa using fun e => hne e.symm
+      rw [hgi, hne'] at g1
+      obtain ⟨F0, h0⟩ := hT.imp n _ g1
+      rw [(keep n F0 h0).2.det h1] at h0; exact h0
+    refine ⟨⟨⟨⟨hI1.ainv.rinv.sound, hI1.ainv.rinv.closed, hI1.ainv.rinv.shape⟩, hI1.ainv.cinv, hI1.ainv.nores⟩, ?_, ?_,
+      ?_, ?_, ?_, ?_, ?_, ?_⟩, hst.imports, hst.redirects, hst.cfg⟩
+    · show s1'.cfg.nestedMerge = true
+      rw [hst.cfg]; exact hT.nested
+    · exact hiwf'.congr hids
+    · intro n k hn
+      rw [hgi] at hn
+      by_cases hne : r.1 = n
+      · subst hne; exact ⟨_, himp1⟩
+      · have hne' : (r.1 == n) = false := by simpa using hne
+        rw [hne'] at hn
+        obtain ⟨F', hF'⟩ := hT.imp n k hn
+        exact ⟨F', (keep n F' hF').2⟩
+    · intro n1 n2 e0 g1 g2
+      rw [hgi] at g1 g2
+      have hnotold : ¬ ImpIds s id' := by
+        rcases hfz with h0 | ⟨t0, h0, h2, _⟩
+        · cases h0
+        · cases h0; exact h2
+      by_cases a1 : r.1 = n1 <;> by_cases a2 : r.1 = n2
+      · rw [← a1, ← a2]
+      · have a2' : (r.1 == n2) = false := by simpa using a2
+        simp only [a1, BEq.rfl, ↓reduceIte, Option.some.injEq, ItemKind.instance.injEq] at g1
+        rw [a2'] at g2
+        subst g1
+        exact absurd ⟨n2, by simpa using g2⟩ hnotold
+      · have a1' : (r.1 == n1) = false := by simpa using a1
+        simp only [a2, BEq.rfl, ↓reduceIte, Option.some.injEq, ItemKind.instance.injEq] at g2
+        rw [a1'] at g1
+        subst g2
+        exact absurd ⟨n1, by simpa using g1⟩ hnotold
+      · have a1' : (r.1 == n1) = false := by simpa using a1
+        have a2' : (r.1 == n2) = false := by simpa using a2
+        rw [a1'] at g1; rw [a2'] at g2
+        exact hT.inj n1 n2 e0 (by simpa using g1) (by simpa using g2)
+    · intro g hid hg
+      rcases hst.keys g hid hg with hg | hg
+      · obtain ⟨p, hp, hu⟩ := hT.keys g hid hg
+        exact ⟨p, List.mem_cons_of_mem _ hp, hu⟩
+      · exact ⟨(r, G), List.mem_cons_self, hg.symm⟩
+    · intro p hp
+      rcases List.mem_cons.1 hp with rfl | hp
+      · exact hr
+      · exact hT.reqs p hp
+    · intro p hp
+      rcases List.mem_cons.1 hp with rfl | hp
+      · simp only [hc1]
+        exact ⟨_, himp1, sub_instance_refl G hr.nd⟩
+      · rw [hc2 p hp]
+        obtain ⟨F', hF', hs'⟩ := hT.sat p hp
+        exact ⟨F', (keep _ F' hF').2, hs'⟩
+    · intro n F' hF' X hX hall
+      by_cases hne : n = r.1
+      · subst hne
+        rw [hF'.det himp1]
+        exact hall (r, G) List.mem_cons_self hc1
+      · exact hT.glb n F' (back n F' hne hF') X hX
+          (fun p hp hn => hall p (List.mem_cons_of_mem _ hp) (by rw [hc2 p hp]; exact hn))
+
+end fresh
+
+/-! ### renaming an import -/
+
+section rename
+variable {W : Colls} {seen : List (Req × Forest)} {cls : Str → Str} {s : AggState}
+
+theorem TInvN.rename (hT : TInvN W seen cls s) {name exName : Str} {m : ItemKind}
+    (hex : amGet s.agg.imports exName = some m) (hnone : amGet s.agg.imports name = none)
+    (R : List (Str × Str)) {cls' : Str → Str}
+    (hc : ∀ p, p ∈ seen → cls' p.1.1 = if cls p.1.1 = exName then name else cls p.1.1) :
+    TInvN W seen cls' (renameImport s name exName m R) := by
+  have hne : name ≠ exName := by rintro rfl; rw [hnone] at hex; cases hex
+  have hgi : ∀ x, amGet (renameImport s name exName m R).agg.imports x =
+      if name == x then some m else if exName == x then none else amGet s.agg.imports x :=
+    fun x => amGet_renamed s.agg.imports name exName m hne hnone x
+  have fwd_ex : ∀ F, ImpN s exName F → ImpN (renameImport s name exName m R) name F := by
+    rintro F ⟨e, ti, h1, h2, h3, h4⟩
+    rw [hex] at h1; cases h1
+    exact ⟨e, ti, by rw [hgi]; simp, h2, h3, h4⟩
+  have fwd : ∀ n F, n ≠ exName → ImpN s n F → ImpN (renameImport s name exName m R) n F := by
+    rintro n F hn ⟨e, ti, h1, h2, h3, h4⟩
+    have hn1 : (name == n) = false := by
+      rw [Bool.eq_false_iff]; intro hc'
+      have : name = n := by simpa using hc'
+      subst this; rw [hnone] at h1; cases h1
+    have hn2 : (exName == n) = false := by simpa using fun e => hn e.symm
+    exact ⟨e, ti, by rw [hgi, hn1, hn2]; exact h1, h2, h3, h4⟩
+  have bwd : ∀ n F, ImpN (renameImport s name exName m R) n F →
+      (n = name ∧ ImpN s exName F) ∨ (n ≠ name ∧ n ≠ exName ∧ ImpN s n F) := by
+    rintro n F ⟨e, ti, h1, h2, h3, h4⟩
+    rw [hgi] at h1
+    by_cases a1 : name = n
+    · subst a1
+      simp only [BEq.rfl, ↓reduceIte, Option.some.injEq] at h1
+      subst h1
+      exact .inl ⟨rfl, e, ti, hex, h2, h3, h4⟩
+    · have a1' : (name == n) = false := by simpa using a1
+      rw [a1'] at h1
+      by_cases a2 : exName = n
+      · subst a2; simp at h1
+      · have a2' : (exName == n) = false := by simpa using a2
+        rw [a2'] at h1
+        exact .inr ⟨fun e' => a1 e'.symm, fun e' => a2 e'.symm, e, ti, by simpa using h1, h2, h3, h4⟩
+  -- the set of import interface ids does not grow
+  have hids : ∀ j, ImpIds (renameImport s name exName m R) j → ImpIds s j := by
+    rintro j ⟨n, hn⟩
+    rw [hgi] at hn
+    by_cases a1 : name = n
+    · simp only [a1, BEq.rfl, ↓reduceIte, Option.some.injEq] at hn
+      subst hn; exact ⟨exName, hex⟩
+    · have a1' : (name == n) = false := by simpa using a1
+      rw [a1'] at hn
+      by_cases a2 : exName = n
+      · subst a2; simp at hn
+      · have a2' : (exName == n) = false := by simpa using a2
+        rw [a2'] at hn
+        exact ⟨n, by simpa using hn⟩
+  refine ⟨⟨⟨hT.ainv.rinv.sound, hT.ainv.rinv.closed, hT.ainv.rinv.shape⟩, hT.ainv.cinv, hT.ainv.nores⟩, hT.nested,
+    hT.iwf.congr hids, ?_, ?_, hT.keys, hT.reqs, ?_, ?_⟩
+  · intro n k hn
+    rw [hgi] at hn
+    by_cases a1 : name = n
+    · subst a1
+      obtain ⟨F, hF⟩ := hT.imp exName m hex
+      exact ⟨F, fwd_ex F hF⟩
+    · have a1' : (name == n) = false := by simpa using a1
+      rw [a1'] at hn
+      by_cases a2 : exName = n
+      · subst a2; simp at hn
+      · have a2' : (exName == n) = false := by simpa using a2
+        rw [a2'] at hn
+        obtain ⟨F, hF⟩ := hT.imp n k (by simpa using hn)
+        exact ⟨F, fwd n F (fun e' => a2 e'.symm) hF⟩
+  · intro n1 n2 e0 h1 h2
+    rw [hgi] at h1 h2
+    have tr : ∀ n, (if name == n then some m else if exName == n then none else amGet s.agg.imports n) =
+        some (.instance e0) → ∃ n0, amGet s.agg.imports n0 = some (.instance e0) ∧
+          ((n = name ∧ n0 = exName) ∨ (n ≠ name ∧ n ≠ exName ∧ n0 = n)) := by
+      intro n hn
+      by_cases a1 : name = n
+      · subst a1
+        simp only [BEq.rfl, ↓reduceIte, Option.some.injEq] at hn
+        subst hn
+        exact ⟨exName, hex, .inl ⟨rfl, rfl⟩⟩
+      · have a1' : (name == n) = false := by simpa using a1
+        rw [a1'] at hn
+        by_cases a2 : exName = n
+        · subst a2; simp at hn
+        · have a2' : (exName == n) = false := by simpa using a2
+          rw [a2'] at hn
+          exact ⟨n, by simpa using hn, .inr ⟨fun e' => a1 e'.symm, fun e' => a2 e'.symm, rfl⟩⟩
+    obtain ⟨m1, g1, c1⟩ := tr n1 h1
+    obtain ⟨m2, g2, c2⟩ := tr n2 h2
+    have := hT.inj m1 m2 e0 g1 g2
+    rcases c1 with ⟨a, b⟩ | ⟨a, b, c⟩ <;> rcases c2 with ⟨a', b'⟩ | ⟨a', b', c'⟩
+    · rw [a, a']
+    · rw [b, c'] at this; exact absurd this.symm b'
+    · rw [c, b'] at this; exact absurd this b
+    · rw [c, c'] at this; exact this
+  · intro p hp
+    rw [hc p hp]
+    obtain ⟨F, hF, hs'⟩ := hT.sat p hp
+    by_cases a : cls p.1.1 = exName
+    · rw [a] at hF; simp only [a, ↓reduceIte]
+      exact ⟨F, fwd_ex F hF, hs'⟩
+    · simp only [a, ↓reduceIte]
+      exact ⟨F, fwd _ F a hF, hs'⟩
+  · intro n F hF X hX hall
+    rcases bwd n F hF with ⟨rfl, hF0⟩ | ⟨a1, a2, hF0⟩
+    · refine hT.glb exName F hF0 X hX (fun p hp hn => hall p hp ?_)
+      rw [hc p hp, hn]; simp
+    · refine hT.glb n F hF0 X hX (fun p hp hn => hall p hp ?_)
+      rw [hc p hp, hn]; simp [a2]
+
+end rename
+
 end Wac.AggP
